@@ -52,6 +52,13 @@ def main(path):
             print(json.dumps(ds, indent=1))
             print('reproduced' if bad else 'not reproduced on the current tree')
             return 1 if bad else 0
+        if o['case'].startswith('non_adt/'):
+            st, pr = diag.run_non_adt(o['cfg'])
+            pr = [p for p in pr if p['case'] == o['case']]
+            for p in pr:
+                print(json.dumps(p, indent=1))
+            print('reproduced' if pr else 'not reproduced on the current tree')
+            return 1 if pr else 0
         cases = [c for c in corpus.quick_corpus(seed) if c[0] == o['case']]
         if not cases:
             print('case %s is not in the corpus for seed %d' % (o['case'], seed))
